@@ -207,6 +207,17 @@ static void check_tree(V *v)
 		json_object_put(back);
 		json_tokener_free(tok);
 	}
+	/* json_object_get_string() on a node that is not a string returns its JSON text (default formatting) */
+	if (o && v->k != V_STR)
+	{
+		MC_COUNT("calls", 1);
+		const char *g = json_object_get_string(o);
+		char *gc = g ? strdup(g) : NULL;
+		const char *t = json_object_to_json_string(o);
+		if (!gc || !t || strcmp(gc, t))
+			mc_violation("get-string-of-non-string-differs", "json_object_get_string gives %.100s, json_object_to_json_string gives %.100s", gc ? gc : "(null)", t ? t : "(null)");
+		free(gc);
+	}
 	json_object_put(o);
 	if (vf_live())
 		mc_violation("leak", "%ld blocks live after release", vf_live());
